@@ -9,6 +9,7 @@ package harness
 import (
 	"fmt"
 	"math/big"
+	"math"
 	"os"
 	"sort"
 	"strings"
@@ -1415,6 +1416,12 @@ func TestC09(t *testing.T) {
 	c09WitnessEmodeMsgV1(t, app, base, tr)  // regression witness of D38 (fixed f18ae51): generation-1 MsgLiquidateBorrow ignored e-mode
 	c09WitnessAuctionTypesV2(t, app, base, tr) // English-only and no-type whitelistings
 
+	// ---- pure helper: the int64 wrap of offset+batchSize (Props/C09.lean slice_in_bounds_wrap_counterexample, finding D41:
+	//      the helper returns a negative end; monitor slice_bounds_wrap fires on the unchanged tree)
+	c09SliceCheck(tr, 5, 1, math.MaxInt64)
+	c09SliceCheck(tr, 1000, 999, math.MaxInt64-998)
+	c09SliceCheck(tr, 1000, 999, math.MaxInt64-999) // largest batch that does not wrap
+	tr.Count("slice:wrap witness")
 	// ---- pure helper: GetSliceStartEndForLiquidations, exhaustive small and wide random
 	for l := -2; l <= 9; l++ {
 		for o := -2; o <= 11; o++ {
